@@ -91,8 +91,17 @@ static uint64_t run_seq(const Seq& s, Ctx& c, Model* out, bool finalSolve)
    make_init(spx, mo, s.init, g_cfgs[s.cfg]);
    uint64_t h = 17;
    Model before;
+   bool hadNonbasicFreeRow = false;      // some state of the history had a basis with a nonbasic free row (status ZERO): necessary condition of a known defect family
+   auto noteFreeRow = [&]()
+   {
+      if(!spx.hasBasis() || spx.numRows() != mo.m() || spx.numCols() != mo.n()) return;
+      std::vector<SPxSolver::VarStatus> rs(mo.m() + 1), cs(mo.n() + 1);
+      spx.getBasis(rs.data(), cs.data());
+      for(int i = 0; i < mo.m(); ++i) if(rs[i] == SPxSolver::ZERO) hadNonbasicFreeRow = true;
+   };
    for(size_t k = 0; k < s.ops.size(); ++k)
    {
+      noteFreeRow();
       bool last = (k + 1 == s.ops.size());
       if(last) before = mo;
       std::vector<Model> alts;
@@ -188,7 +197,7 @@ static uint64_t run_seq(const Seq& s, Ctx& c, Model* out, bool finalSolve)
       if(spx.hasBasis())
       {
          std::string b = basis_valid(spx, mo);
-         if(!b.empty()) c.violation(sig_of("invalid-basis-after-reoptimize", s), s.str(), b + " | " + s.pretty());
+         if(!b.empty()) c.violation(sig_of("invalid-basis-after-reoptimize", s) + (hadNonbasicFreeRow ? "+history-had-nonbasic-free-row" : ""), s.str(), b + " | " + s.pretty());
       }
    }
    if(c.wantSample() && s.ops.size() >= 2 && (fnv_str(s.str()) % 997) == 0)
